@@ -662,10 +662,10 @@ class Translator:
             it, tit = self.expr(s.iter, env)
             if not tit.startswith('list '):
                 self.err(s, f'for over {tit}')
-            names = self.assigned(s.body)
-            for n in names:
-                if n not in env:
-                    self.err(s, f'loop variable {n} not initialised before the loop')
+            # variables assigned in the body and defined before the loop are carried from one iteration to the
+            # next; the others are temporaries local to one iteration (they must not be used after the loop:
+            # a later use fails as 'unknown name')
+            names = [n for n in self.assigned(s.body) if n in env]
             env2 = dict(env)
             xp = self.bind_target(s.target, tit[5:], env2, s)
             if self.contains_exit(s.body):
